@@ -1,0 +1,20 @@
+//go:build !verif
+
+package cachex
+
+const (
+	VerifSiteBeforeLock = 1 + iota
+	VerifSiteAfterLock
+	VerifSiteAfterUnlock
+	VerifSiteLoadUpdateTime
+	VerifSiteReadErr
+	VerifSiteLoadPredecessor
+	VerifSiteStoreUpdateTime
+	VerifSiteStorePredecessor
+	VerifSiteSendJob
+	VerifSiteFutureWait
+)
+
+func verifYield(int) {}
+
+func verifYieldWait(*Future) {}
